@@ -199,8 +199,30 @@ def run(ctx) -> None:
     # ---------------- R4 -------------------------------------------------------------------------------
     tlf = m.func("Manifest.top_level_folders")
     ctx.analysed(tlf)
-    sp = [c for c in source.calls_in(tlf, include_nested=True) if last_attr(c) == "split" and c.args]
-    ctx.require(bool(sp), "anchor missing: split in Manifest.top_level_folders")
+    sp = [c for c in source.calls_in(tlf, include_nested=True) if last_attr(c) == "split" and c.args
+          and (call_name(c) or "") != "os.path.split"]
+    # what is taken from each key: the recognised "first segment" forms are x.split(sep[, n])[0] / x.partition(sep)[0];
+    # forms that are known NOT to give the left-most folder of a nested key are violations; anything else is undecided
+    firsts = [n for n in ast.walk(tlf) if isinstance(n, ast.Subscript) and isinstance(n.value, ast.Call)
+              and last_attr(n.value) in ("split", "partition") and (call_name(n.value) or "") != "os.path.split"
+              and isinstance(n.slice, ast.Constant) and n.slice.value == 0]
+    NOT_FIRST = {"os.path.dirname": "the parent path ('a/b/c' -> 'a/b')", "os.path.basename": "the last segment",
+                 "os.path.split": "(parent, last segment)", "os.path.normpath": "the whole key", "os.path.splitext": "the key without extension"}
+    wrong = [c for c in source.calls_in(tlf, include_nested=True) if (call_name(c) or "") in NOT_FIRST
+             or last_attr(c) in ("rsplit", "rpartition")]
+    wrong += [n for n in ast.walk(tlf) if isinstance(n, ast.Subscript) and isinstance(n.value, ast.Call) and last_attr(n.value) in ("split", "partition")
+              and (call_name(n.value) or "") != "os.path.split" and not (isinstance(n.slice, ast.Constant) and n.slice.value == 0)]
+    for w in wrong:
+        what = NOT_FIRST.get(call_name(w) or "", "not the left-most segment") if isinstance(w, ast.Call) else "not element [0] of the split"
+        ctx.ob("C09.R4-first-path-segment", w, False,
+               "Manifest.top_level_folders derives a folder from a manifest key with %s, which is %s: for a key nested two or "
+               "more levels ('lib/python/site') the reserved folder is not 'lib', so 'lib/helper.py:ref' is classified as a "
+               "component" % (short(w, 50), what), construct="top_level_folders: %s" % short(w, 60))
+    ctx.require(bool(firsts) or bool(wrong), "cannot decide how Manifest.top_level_folders derives the folder of a key "
+                                             "(neither a recognised first-segment form nor a known wrong form)")
+    if firsts and not wrong:
+        ctx.ob("C09.R4-first-path-segment", firsts[0], True, "the folder of a manifest key is element [0] of a split on the separator",
+               construct="top_level_folders: %s" % short(firsts[0], 60))
     for c in sp:
         sep = source.src(c.args[0])
         ok = sep in PATH_SEPS
